@@ -819,6 +819,7 @@ func main() {
 	deadlineCases()
 	bytesCases(r, thorough)
 	consumedCases(r, thorough)
+	splitCases(r, thorough)
 	out.Flush()
 	stressScenarios(r, thorough)
 	fetchScenarios(r, thorough)
